@@ -139,6 +139,11 @@ def run(tier, seed):
         vp.run_subject([os.path.join(bd, "eng_conc"), "--kind", kind, "--workers", str(workers), "--tasks", str(tasks),
                 "--runs", str(runs), "--seed", str(seed * 100 + i), "--out", tr], timeout=3000)
         traces.append((tr, kind, f"{kind} workers={workers} tasks={tasks}"))
+    # one firewall with hundreds of projections above it, a consumer per projection: when the firewall
+    # changes, backward projection propagation fans out over all of them (in chunks, one task per chunk);
+    # every consumer must follow (prime counts: no chunk size divides them)
+    wide_proj = ec.wide_fanin_leg(PID, bd, wd, verdict, "eng_seq", fan=(131, 257) if quick else (131, 257, 769, 1031),
+                                  proj=True, tag="wide_projections")
     # fan-in far above the 1024-element threshold of the callee -> callers set, in memory and over
     # DbBacked<MemKv> (the set is rebuilt from the store through the spill path): judged by the light
     # trace spec (EngineObsLite: user values, double execution, overlap), linear in the trace length
@@ -202,6 +207,7 @@ def run(tier, seed):
                     {"engine_run_plan": [p[:3] for p in plans]}],
         "backward_edge_set": bes_info,
         "fan_in_1100": wide,
+        "firewall_with_hundreds_of_projections": wide_proj,
         "single_flight_protocol_model": single_flight_model,
         "single_flight_schedule_replay": sched_info,
         "engine_runs": nruns,
